@@ -8,6 +8,8 @@ import json, os, time, sys
 
 VERIF = os.path.dirname(os.path.dirname(os.path.abspath(__file__)))
 KNOWN = os.path.join(VERIF, 'known_findings.json')
+# self-tests on scratch copies redirect their evidence so that the real evidence files are not overwritten
+EVDIR = os.environ.get('CV_EVIDENCE_DIR') or os.path.join(VERIF, 'evidence')
 
 
 class Ctx:
@@ -87,11 +89,11 @@ def finish(ctx, explanation, level='other', assumptions=(), technique='', extra_
                 knownhits.append((o, kn[k]))
             else:
                 viol.append(o)
-    os.makedirs(os.path.join(VERIF, 'evidence', 'replay'), exist_ok=True)
+    os.makedirs(os.path.join(EVDIR, 'replay'), exist_ok=True)
     for o, k in knownhits:
         print('KNOWN-FINDING: property=%s %s [%s %s at %s]' % (ctx.prop, k['what'], o['rule'], o['key'], o['site']))
     for o in viol:
-        rp = os.path.join(VERIF, 'evidence', 'replay', '%s_%s_%s.json' % (
+        rp = os.path.join(EVDIR, 'replay', '%s_%s_%s.json' % (
             ctx.prop, o['rule'].replace('/', '_'), _safe(o['key'])))
         json.dump({'property': ctx.prop, 'rule': o['rule'], 'key': o['key'], 'site': o['site'],
                    'what': o['what'], 'detail': o['detail'], 'config': o['config'], 'tier': ctx.tier}, open(rp, 'w'), indent=1)
@@ -144,7 +146,7 @@ def finish(ctx, explanation, level='other', assumptions=(), technique='', extra_
         'coverage': cov, 'assumptions': list(assumptions),
         'wall_s': round(time.time() - ctx.t0, 3), 'violations': len(viol),
     }
-    json.dump(ev, open(os.path.join(VERIF, 'evidence', ctx.prop + '.json'), 'w'), indent=1)
+    json.dump(ev, open(os.path.join(EVDIR, ctx.prop + '.json'), 'w'), indent=1)
     print('%s: %d obligations, %d proved, %d known findings, %d violations, %d broken; %d functions, %d paths, %.1fs' % (
         ctx.prop, nob, ndis, len(knownhits), len(viol), len(broken), len(ctx.stats['functions']),
         ctx.stats['paths'], time.time() - ctx.t0))
